@@ -53,7 +53,7 @@ PROPS = {
                  RULE_LIB.replace('non-trivial when at least one compared fetch returns a series with a non-NaN value',
                                   'non-trivial when at least one fetch returns a series (shape observed)'),
                  'FetchFromArchive clamping, interval arithmetic, findBestArchive'),
-    'C05': entry(gens_core.gen_c05, 200, 3000, RULE_LIB,
+    'C05': entry(lambda rnd, n, thorough=False: gens_core.gen_c05(rnd, n, thorough) + gens_cli.gen_c05_cli(rnd, max(n // 10, 8), thorough), 200, 3000, RULE_LIB,
                  'Create/Sync/Close/Open at the slot-view level; filebuffer page cache in Model/FileBuf.v'),
     'C14': entry(gens_codec.gen_c14, 500, 8000,
                  'objects of every codec kind (boundary and random field values, NaN payloads, infinities, signed zero) generated from one '
@@ -86,6 +86,13 @@ PROPS = {
                  'on files with 17-digit values, infinities and NaN; text parsed back with Go\'s own ParseFloat/time.Parse', 'cmd/view.go, cmd/view_raw.go, cmd/points_list.go', shrink=False),
     'C20': entry(gens_cli.gen_c20, 150, 2500, 'real GenerateCommand runs at the wall clock (small steps, so every alignment of the instant to the steps occurs), '
                  'fill on/off, maxima incl. 0, existing destination', 'cmd/generate.go', shrink=False),
+    'C12': entry(gens_cli.gen_c12, 80, 1500, 'one real server (whispertool server) per driver process; view, view-raw, sum, both sides of diff, the source of '
+                 'copy and file/item globbing run once against the directory and once against the URL, plus raw HTTP queries with a clock in the past; '
+                 'file names contain + & % = ; #; the model predicts one answer for both modes', 'cmd/server.go handlers, client decoders in cmd/view.go, cmd/view_raw.go, cmd/glob.go, cmd/sum.go; net/http transports bytes', shrink=False),
+    'C16': entry(gens_cli.gen_c16, 120, 2000, 'cells of the matrix subcommand (view, view-raw, diff, copy, sum, sum-copy, sum-diff, generate) x archive selection '
+                 '(all / each id / out of range) x window (default, narrow, past, beyond retention, degenerate, future) x fault (text-out that cannot be opened, '
+                 '/dev/full with a short and with a long report, missing source, unreadable source, mismatching destination layout); the status (ok / diff / '
+                 'notexist / err, never panic) and the effect on the destination are compared', 'all of cmd/*.go through the command structs', shrink=False),
 }
 
 
